@@ -91,6 +91,12 @@ def run(chk):
                 for ft, view in (("f64", "u64"), ("f32", "float")):
                     cells.append(dict(kind="dens_%s_%s_%s_no32" % (alg, ft, view), m=m, groups=groups, shape=name + "+idhash32",
                                       oracle=j, ids="paired32", trials=trials_for(m, n, quick)))
+    # two disjoint sets of one-bit twins behind the identity hasher (an item and its twin are different items: J = 0)
+    for alg in ("opt", "rev"):
+        for bit in (0, 7, 8, 31, 32, 56, 63):
+            for ft, view in (("f64", "float"), ("f64", "u64"), ("f32", "float")):
+                cells.append(dict(kind="dens_%s_%s_%s_no" % (alg, ft, view), m=16, groups=[[40, 1, 0], [40, 0, 1]],
+                                  shape="one-bit-twins-%d" % bit, oracle=0.0, ids="flip%d" % bit, trials=2000))
     res = freqfam.run_pairs(chk, cells, "pairs")
     freqfam.judge_pairs(chk, cells, res, "pairs", check_mse=False)
     chk.cov["pair_cells"] = len(cells)
